@@ -11,6 +11,7 @@
 #include <gemmi/align.hpp>
 #include "pdb_struct.hpp"
 #include <sstream>
+#include <map>
 #include <fstream>
 using namespace gemmi;
 using hv::words; using hv::to_ll; using hv::hex_encode; using hv::hex_decode;
@@ -101,6 +102,57 @@ static std::string atom_rows(const Structure& st) {
 
 static std::string handle(const std::string& cmd, const std::string& args) {
   std::vector<std::string> w = words(args);
+  if (cmd == "subch" || cmd == "o_subch") {   // nchains {hexname types}*: types = one letter per residue (U P N B W)
+    std::vector<std::string> w = hv::words(args);
+    size_t n = (size_t) hv::to_ll(w.at(0));
+    gemmi::Structure st;
+    st.models.emplace_back(1);
+    for (size_t i = 0; i < n; ++i) {
+      st.models[0].chains.emplace_back(hv::hex_decode(w.at(1 + 2 * i)));
+      gemmi::Chain& ch = st.models[0].chains.back();
+      std::string types = w.at(2 + 2 * i);
+      if (types == "-") types.clear();
+      int num = 0;
+      for (char t : types) {
+        gemmi::Residue r;
+        r.name = "ALA";
+        r.seqid.num = ++num;
+        r.entity_type = t == 'P' ? gemmi::EntityType::Polymer : t == 'N' ? gemmi::EntityType::NonPolymer :
+                        t == 'B' ? gemmi::EntityType::Branched : t == 'W' ? gemmi::EntityType::Water :
+                        gemmi::EntityType::Unknown;
+        ch.residues.push_back(r);
+      }
+    }
+    gemmi::assign_subchains(st, true, false);
+    if (cmd == "subch") {
+      std::string out;
+      for (size_t i = 0; i < n; ++i) {
+        if (i) out += ";";
+        const gemmi::Chain& ch = st.models[0].chains[i];
+        for (size_t j = 0; j < ch.residues.size(); ++j)
+          out += (j ? "," : "") + hv::hex_encode(ch.residues[j].subchain);
+        if (ch.residues.empty()) out += "_";
+      }
+      return out;
+    }
+    // oracle on gemmi alone: a non-polymer residue shares its sub-chain name with no other residue of the model, and
+    // residues of chains with different names never share one
+    std::map<std::string, std::pair<std::string, int>> seen;   // name -> (chain name, count)
+    for (const gemmi::Chain& ch : st.models[0].chains)
+      for (const gemmi::Residue& r : ch.residues) {
+        if (r.subchain.empty()) continue;
+        auto it = seen.find(r.subchain);
+        if (it != seen.end()) {
+          if (it->second.first != ch.name)
+            return "sub-chain " + r.subchain + " occurs in chains " + it->second.first + " and " + ch.name;
+          if (r.entity_type == gemmi::EntityType::NonPolymer || it->second.second < 0)
+            return "non-polymer sub-chain " + r.subchain + " is shared";
+        } else {
+          seen.emplace(r.subchain, std::make_pair(ch.name, r.entity_type == gemmi::EntityType::NonPolymer ? -1 : 1));
+        }
+      }
+    return "ok";
+  }
   if (cmd == "o_cif") {        // seed nmodels nchains nres groupmask flags: structure -> mmCIF -> structure -> mmCIF
     uint64_t seed = (uint64_t)to_ll(w.at(0));
     unsigned flags = (unsigned)to_ll(w.at(5));
